@@ -86,6 +86,15 @@ theorem Grows.then_same {s s1 s' : SSys} (g : Grows s s1) (h1 : s'.replies = s1.
   obtain ⟨nr, nf, a, b, c⟩ := g
   exact ⟨nr, nf, by rw [h1, a], by rw [h2, b], c⟩
 
+theorem Grows.trans {s s1 s2 : SSys} (g1 : Grows s s1) (g2 : Grows s1 s2) : Grows s s2 := by
+  obtain ⟨r1, f1, a1, b1, c1⟩ := g1
+  obtain ⟨r2, f2, a2, b2, c2⟩ := g2
+  refine ⟨r1 ++ r2, f1 ++ f2, by rw [a2, a1, List.append_assoc], by rw [b2, b1, List.append_assoc], ?_⟩
+  intro f hf
+  rcases List.mem_append.1 hf with hf | hf
+  · obtain ⟨rp, hr, hh⟩ := c1 f hf; exact ⟨rp, List.mem_append_left _ hr, hh⟩
+  · obtain ⟨rp, hr, hh⟩ := c2 f hf; exact ⟨rp, List.mem_append_right _ hr, hh⟩
+
 theorem dnsSockStep_dns {cfg : Cfg} {s : SSys} {h : DnsH} {k : Nat} {r : RecvRes} {sc : Script}
     (hs : SrvDns Q s) (hmem : h ∈ s.dnsH) :
     SrvDns Q (dnsSockStep cfg s h k r sc) ∧ Grows s (dnsSockStep cfg s h k r sc) := by
@@ -120,6 +129,29 @@ theorem dnsSockStep_dns {cfg : Cfg} {s : SSys} {h : DnsH} {k : Nat} {r : RecvRes
   | none => exact ⟨⟨hs.noudp, hH, hR⟩, _, _, rfl, rfl, hnew⟩
   | some e => exact ⟨⟨hs.noudp, hH, hR⟩, _, _, rfl, rfl, hnew⟩
 
+theorem multiSock_dns {cfg : Cfg} {evs : List (Nat × RecvRes)} (hids : List Nat) :
+    ∀ {sc : Script} {s : SSys}, SrvDns Q s →
+      SrvDns Q (multiSock cfg evs hids sc s) ∧ Grows s (multiSock cfg evs hids sc s) := by
+  induction hids with
+  | nil => intro sc s hs; exact ⟨hs, Grows.same rfl rfl⟩
+  | cons hid rest ih =>
+    intro sc s hs
+    simp only [multiSock]
+    split
+    · exact ⟨hs, Grows.same rfl rfl⟩
+    · split
+      · exact ih hs
+      · next h hfind =>
+        split
+        · exact ih hs
+        · next k _ =>
+          split
+          · exact ih hs
+          · next r _ =>
+            obtain ⟨a1, g1⟩ := dnsSockStep_dns (cfg := cfg) (k := k) (r := r) (sc := sc) hs (List.mem_of_find?_eq_some hfind)
+            obtain ⟨a2, g2⟩ := ih (sc := (dnsCallback cfg h k r s.nextSock sc).script) a1
+            exact ⟨a2, g1.trans g2⟩
+
 theorem roundEvent_dns {cfg : Cfg} {now : Nat} {ev : SEvent} {sc : Script} {s : SSys} (hs : SrvDns Q s)
     (hev : ∀ fs, ev = .mux fs → ∀ f ∈ fs, f.cmd = CMD_DNS_REQ ∧ Q f.chan f.data) :
     SrvDns Q (roundEvent cfg now ev sc s) ∧ Grows s (roundEvent cfg now ev sc s) := by
@@ -134,6 +166,7 @@ theorem roundEvent_dns {cfg : Cfg} {now : Nat} {ev : SEvent} {sc : Script} {s : 
     · next h hfind => exact dnsSockStep_dns hs (List.mem_of_find?_eq_some hfind)
     · simp only [hs.noudp.1, List.find?_nil]
       exact ⟨hs, Grows.same rfl rfl⟩
+  | socks evs => exact multiSock_dns _ hs
 
 theorem finishRound_dns {now : Nat} {s : SSys} (hs : SrvDns Q s) :
     SrvDns Q (finishRound now s) ∧ (finishRound now s).replies = s.replies ∧ (finishRound now s).out = s.out := by
@@ -272,6 +305,7 @@ def Op.dnsHonest : Op → Bool
   | .sround _ _ => true
   | .ssock _ _ _ => true
   | .sinject _ _ => false
+  | .smulti _ _ => true
 
 /-- (id, request bytes) of a captured query. -/
 def QOf (qs : List Query) : Nat → Bytes → Prop := fun c r => ∃ qu ∈ qs, qu.chan = c ∧ qu.data = r
@@ -345,6 +379,9 @@ theorem EInv.step {s : Sys} (h : EInv s) (op : Op) (hop : op.dnsHonest = true) :
       (fun fs e f hf => by cases e; exact List.mem_of_mem_take hf)
   | ssock k r sc =>
     have := h.server_step (.sock k r) sc s.c2s (fun f hf => hf) (fun fs e => by cases e)
+    exact this
+  | smulti evs sc =>
+    have := h.server_step (.socks evs) sc s.c2s (fun f hf => hf) (fun fs e => by cases e)
     exact this
   | cdeliver =>
     simp only [Sys.step]
